@@ -677,6 +677,12 @@ func (s *Dataset) Write(data interface{}) error { return s.WriteSubset(data, nil
 
 // FakeStringDataset creates a 1-D fixed-length string dataset (what LoadText reads).
 func FakeStringDataset(filename, path string, strs []string) error {
+	return FakeStringDatasetWidth(filename, path, strs, 0)
+}
+
+// FakeStringDatasetWidth stores fixed-width strings the way h5py writes an 'S<width>' array: NUL-padded, and
+// without any terminator when a string fills the width.  width 0 = longest string + 1.
+func FakeStringDatasetWidth(filename, path string, strs []string, width int) error {
 	fd := live(filename)
 	if fd == nil {
 		return errors.New("no such file")
@@ -697,6 +703,12 @@ func FakeStringDataset(filename, path string, strs []string) error {
 		if len(s)+1 > maxLen {
 			maxLen = len(s) + 1
 		}
+	}
+	if width > 0 {
+		if width < maxLen-1 {
+			return errors.New("width shorter than the longest string")
+		}
+		maxLen = width
 	}
 	ds := &node{typ: dtype{classString, uint(maxLen), false}, dims: []uint{uint(len(strs))}, data: make([]byte, maxLen*len(strs))}
 	for i, s := range strs {
